@@ -4,6 +4,7 @@ CONSTANTS
   DepositBlocks = {1, 2}
   DepositStates = {"ok", "young", "swept", "conf5", "conferr", "missing", "other"}
   DepositLimits = {0, 1, 2}
+  DepositFilters = {"this", "all"}
   DepositFlags <- SweepFlags
   RedemptionHistories <- HistoriesQ
   RedemptionAges = {1, 3, 5, 8}
@@ -15,4 +16,5 @@ CONSTANTS
   MaxChecklist = 3
   ChecklistActions = {"Noop", "Heartbeat", "DepositSweep", "Redemption", "MovingFunds"}
   SupportedActions = {"Heartbeat", "DepositSweep", "Redemption", "MovingFunds"}
+  GenKinds = {"deposits", "redemptions", "generate"}
 INVARIANTS EmitAll
